@@ -373,7 +373,7 @@ theorem reshape_plain_ok {α} (a : DimArray α) (hw : a.WF) (hpa : PlainAxes a.a
 
 def bcStep {α} (a : DimArray α) (o : DimArray α) (t : Axis) : Except Err (DimArray α) :=
   match o.axes.find? (·.name == t.name) with
-  | some ax => if ax.size == 1 && (t.size != 1 || !a.dims.contains t.name) then repeatAxis o t (.name t.name) else pure o
+  | some ax => if ax.size == 1 && (t.size != 1 || !a.dims.contains t.name) then repeatAxis o t.bare (.name t.name) else pure o
   | none => .error .value
 
 theorem broadcast_eq {α} (a : DimArray α) (target : List Axis) :
@@ -381,7 +381,7 @@ theorem broadcast_eq {α} (a : DimArray α) (target : List Axis) :
 
 /-- what one step of the loop makes of the axis `ax` (of the same name as the target axis `t`) -/
 def stepAxis {α} (a : DimArray α) (ax t : Axis) : Axis :=
-  if ax.size == 1 && (t.size != 1 || !a.dims.contains t.name) then t else ax
+  if ax.size == 1 && (t.size != 1 || !a.dims.contains t.name) then t.bare else ax
 
 theorem stepAxis_name {α} (a : DimArray α) (ax t : Axis) (h : ax.name = t.name) : (stepAxis a ax t).name = t.name := by
   unfold stepAxis; split
@@ -419,35 +419,36 @@ theorem bcFold_ok {α} (a : DimArray α) (N : List String) :
       have hsz1 : (o.axes.getD k default).size = 1 := by
         simp only [Bool.and_eq_true, beq_iff_eq] at hc; exact hc.1
       have hres : Resolves o (.name t.name) k := ⟨hkl, hk⟩
-      have hstep : bcStep a o t = .ok (repeatAt o k t) := by
+      have hstep : bcStep a o t = .ok (repeatAt o k t.bare) := by
         simp only [bcStep, hfind, hc, if_true]
-        exact repeatAxis_ok o hw.2.1 t (.name t.name) k hres hsz1
-      have hnew : ({ t with name := (o.axes.getD k default).name } : Axis) = t := by rw [hnm]
-      have hax1 : (repeatAt o k t).axes = o.axes.set k t := by
+        exact repeatAxis_ok o hw.2.1 t.bare (.name t.name) k hres hsz1
+      have hnm' : (o.axes.getD k default).name = t.bare.name := hnm
+      have hnew : ({ t.bare with name := (o.axes.getD k default).name } : Axis) = t.bare := by rw [hnm']
+      have hax1 : (repeatAt o k t.bare).axes = o.axes.set k t.bare := by
         show o.axes.set k _ = _
         rw [hnew]
-      have hw1 := repeatAt_wf o k t hw (hpl t List.mem_cons_self)
-      have hd1 := repeatAt_dims o k t
+      have hw1 := repeatAt_wf o k t.bare hw rfl
+      have hd1 := repeatAt_dims o k t.bare
       have htN : t.name ∉ N := by
         intro h
         exact hsz _ haxm (hnm ▸ h) hsz1
       have hs1 : o.vals.shape[k]? = some 1 := by
         rw [hw.1, List.getElem?_map, List.getElem?_eq_getElem hkl, Option.map_some,
           ← axis_getD_eq o k hkl, hsz1]
-      have hso : SameOn N o (repeatAt o k t) := by
-        apply (repeatAt_sameOn o k t hw.2.1 hs1).mono
+      have hso : SameOn N o (repeatAt o k t.bare) := by
+        apply (repeatAt_sameOn o k t.bare hw.2.1 hs1).mono
         intro x hx
         exact mem_eraseIdx_of_ne hw.2.1 hk (hN x hx) (fun e => htN (e ▸ hx))
-      have hsz' : ∀ ax ∈ (repeatAt o k t).axes, ax.name ∈ N → ax.size ≠ 1 := by
+      have hsz' : ∀ ax ∈ (repeatAt o k t.bare).axes, ax.name ∈ N → ax.size ≠ 1 := by
         intro ax hax hn
         rw [hax1] at hax
         rcases List.mem_or_eq_of_mem_set hax with h | h
         · exact hsz ax h hn
-        · exact absurd (h ▸ hn) htN
-      obtain ⟨o', h1, h2, h3, h4, h5, h6, h7⟩ := bcFold_ok a N ts (repeatAt o k t) hw1 hnd.2 hpl'
+        · exact absurd (show t.bare.name ∈ N from h ▸ hn) htN
+      obtain ⟨o', h1, h2, h3, h4, h5, h6, h7⟩ := bcFold_ok a N ts (repeatAt o k t.bare) hw1 hnd.2 hpl'
         (fun x hx => hd1 ▸ hts' x hx) (fun x hx => hd1 ▸ hN x hx) hsz'
       refine ⟨o', by rw [hstep]; exact h1, h2, h3, h4, h5.trans hd1, hso.trans h6, ?_⟩
-      have hstepAx : stepAxis a (o.axes.getD k default) t = t := by
+      have hstepAx : stepAxis a (o.axes.getD k default) t = t.bare := by
         unfold stepAxis; rw [if_pos hc]
       intro ax' hax'
       rcases h7 ax' hax' with ⟨hn1, hm1⟩ | ⟨t', ht', ax1, hax1m, hn1, he1⟩
@@ -458,9 +459,9 @@ theorem bcFold_ok {α} (a : DimArray α) (N : List String) :
             have : ax' = o.axes.getD k default :=
               axis_eq_of_name_eq hw.2.1 h haxm (hname.trans hnm.symm)
             -- then the set overwrote it: ax' is in the new list only if it equals t
-            have hin : t ∈ (repeatAt o k t).axes := by rw [hax1]; exact List.mem_set hkl t
-            have hm1' : ax' ∈ (repeatAt o k t).axes := by rw [hax1]; exact hm1
-            have : ax' = t := axis_eq_of_name_eq hw1.2.1 hm1' hin hname
+            have hin : t.bare ∈ (repeatAt o k t.bare).axes := by rw [hax1]; exact List.mem_set hkl t.bare
+            have hm1' : ax' ∈ (repeatAt o k t.bare).axes := by rw [hax1]; exact hm1
+            have : ax' = t.bare := axis_eq_of_name_eq hw1.2.1 hm1' hin hname
             exact ⟨t, List.mem_cons_self, _, haxm, hnm, by rw [hstepAx]; exact this⟩
           · left
             refine ⟨?_, h⟩
@@ -474,7 +475,8 @@ theorem bcFold_ok {α} (a : DimArray α) (N : List String) :
         · exact ⟨t', List.mem_cons_of_mem _ ht', ax1, h, hn1, he1⟩
         · exfalso
           apply hnd.1
-          rw [← h, hn1]
+          have e : t.name = t'.name := by rw [h] at hn1; exact hn1
+          rw [e]
           exact List.mem_map.mpr ⟨t', ht', rfl⟩
     · -- nothing to do for this axis
       have hstep : bcStep a o t = .ok o := by
